@@ -157,6 +157,17 @@ theorem step_inv (s : VS) (op : Op) (h : Inv s) : Inv (s.step op) := by
   | clear i => exact inv_of_eq h (clear_next s i) (fun id => clear_occ s i id)
   | surrender i => exact inv_of_eq h (surrender_next s i) (fun id => surrender_occ s i id)
   | readopt i => exact h
+  | selfAssign i =>
+    simp only [VS.step]
+    cases hg : s.get i with
+    | none => exact h
+    | some o =>
+      have hi : i < s.holders.length := by
+        unfold VS.get at hg
+        by_cases hi : i < s.holders.length
+        · exact hi
+        · simp [List.getElem?_eq_none (Nat.le_of_not_lt hi)] at hg
+      exact put_fresh s i _ hi rfl h
   | swap i j =>
     simp only [VS.step]
     unfold VS.swap
@@ -278,6 +289,24 @@ theorem C20_set_get (s : VS) (i ty : Nat) (v : Int) (hi : i < s.holders.length) 
     unfold VS.get at this
     simp only [hj, ↓reduceIte] at this
     exact this
+
+/-- assigning a holder the value it already holds (`h = value_cast<T>(h)`) leaves every typed access as it was: the copy is
+    taken before the old object goes -/
+theorem C20_self_assign (s : VS) (i j ty : Nat) : (s.step (.selfAssign i)).cast j ty = s.cast j ty := by
+  simp only [VS.step]
+  cases hg : s.get i with
+  | none => rfl
+  | some o =>
+    have hi : i < s.holders.length := by
+      unfold VS.get at hg
+      by_cases hi : i < s.holders.length
+      · exact hi
+      · simp [List.getElem?_eq_none (Nat.le_of_not_lt hi)] at hg
+    unfold VS.cast
+    rw [C20_set_get s i o.ty o.val hi j]
+    by_cases hj : j = i
+    · subst hj; simp [hg]
+    · simp [hj]
 
 /-- a copy has the same type and value as its source but is a different (fresh) object; the source and all
     other holders are unchanged — so later changes to either are independent. -/
